@@ -5,6 +5,7 @@ import (
 	"sort"
 	"strings"
 	"sync/atomic"
+	"time"
 
 	"verif/internal/core"
 )
@@ -283,6 +284,7 @@ func runC07(env *core.Env) {
 	}
 	b.Run()
 	validated := b.Conf.run(env)
+	mergedCov := c07MergedLogs(env)
 	schedCov := c07Concurrent(env, root, tasks)
 	cov := map[string]interface{}{
 		"states": b.States, "transitions": b.Transitions, "traces_validated_against_impl": validated,
@@ -290,7 +292,7 @@ func runC07(env *core.Env) {
 		"states_checked": checked, "requests_accepted": accepted, "requests_rejected": rejected,
 		"distinct_outcome_classes": classes.len(), "outcome_classes": classes.snapshot(), "unconfirmed_candidates": unconfirmed.Load(),
 		"bound":      "3 tasks + 2 epics (+1 anchor task), every ordered pair over {tasks, epics, unknown, pruned} for sequence and sequence rm, every 3-chain over tasks, done/prune/compact; BFS to fixpoint on the canonical graph",
-		"concurrent": schedCov,
+		"concurrent": schedCov, "merged_logs": mergedCov,
 	}
 	env.Finish("model_checking", cov, []string{"state key = canonical labelled graph", "concurrent part: see coverage.concurrent (preemption-bounded schedules of real processes)"})
 }
@@ -309,4 +311,113 @@ func invClass(msg string) string {
 		return "dead-endpoint"
 	}
 	return "other"
+}
+
+// c07MergedLogs: two clones of one store - one finishes and prunes an item, the other (which has not seen that) adds
+// edges from, to and around it - merged line-wise in every order that keeps each clone's own order. However the
+// tombstone and the link events interleave, a reader must never be shown an edge with a pruned end, and deps/rdeps must
+// mirror each other; compact must not change that. (Acyclicity is not asserted here: a union of two clones that each
+// added one direction is outside what commands can prevent.)
+func c07MergedLogs(env *core.Env) map[string]interface{} {
+	type scen struct {
+		name string
+		base func(l *SynLog) (x, y, z string)
+		a    func(l *SynLog, x, y, z string) // clone 1: finishes and prunes x
+		b    func(l *SynLog, x, y, z string) // clone 2: edges
+	}
+	scens := []scen{
+		{"tasks", func(l *SynLog) (string, string, string) {
+			x, y, z := core.IDFor(9401), core.IDFor(9402), core.IDFor(9403)
+			l.Create(SynItem{ID: x, Title: "X"})
+			l.Create(SynItem{ID: y, Title: "Y"})
+			l.Create(SynItem{ID: z, Title: "Z"})
+			return x, y, z
+		}, func(l *SynLog, x, y, z string) { l.State(x, "done"); l.Tombstone(x) },
+			func(l *SynLog, x, y, z string) { l.Link(y, x); l.Link(z, y); l.Link(x, z) }},
+		{"epics", func(l *SynLog) (string, string, string) {
+			x, y, z := core.IDFor(9411), core.IDFor(9412), core.IDFor(9413)
+			l.Create(SynItem{ID: x, Epic: true, Title: "EX"})
+			l.Create(SynItem{ID: y, Epic: true, Title: "EY"})
+			l.Create(SynItem{ID: z, Epic: true, Title: "EZ"})
+			l.Create(SynItem{ID: core.IDFor(9414), Title: "child of EY", In: y})
+			l.Create(SynItem{ID: core.IDFor(9415), Title: "child of EZ", In: z})
+			return x, y, z
+		}, func(l *SynLog, x, y, z string) { l.Tombstone(x) },
+			func(l *SynLog, x, y, z string) { l.Link(y, x); l.Link(x, z); l.Link(z, y) }},
+		{"tasks-unlink-after-prune", func(l *SynLog) (string, string, string) {
+			x, y, z := core.IDFor(9421), core.IDFor(9422), core.IDFor(9423)
+			l.Create(SynItem{ID: x, Title: "X"})
+			l.Create(SynItem{ID: y, Title: "Y"})
+			l.Create(SynItem{ID: z, Title: "Z"})
+			l.Link(y, x)
+			return x, y, z
+		}, func(l *SynLog, x, y, z string) { l.State(x, "canceled"); l.Tombstone(x) },
+			func(l *SynLog, x, y, z string) { l.Unlink(y, x); l.Link(y, x); l.Link(z, x) }},
+	}
+	type job struct {
+		name string
+		st   core.Store
+		desc string
+	}
+	var jobs []job
+	for _, sc := range scens {
+		bl := newSynLog()
+		x, y, z := sc.base(bl)
+		al, cl := newSynLog(), newSynLog()
+		al.t = bl.t.Add(time.Hour)
+		cl.t = bl.t.Add(time.Hour + 700*time.Millisecond)
+		sc.a(al, x, y, z)
+		sc.b(cl, x, y, z)
+		// all merges of al.lines and cl.lines that keep each side's order
+		var rec func(i, j int, acc [][]byte, pick string)
+		rec = func(i, j int, acc [][]byte, pick string) {
+			if i == len(al.lines) && j == len(cl.lines) {
+				var buf []byte
+				buf = append(buf, bl.Bytes()...)
+				for _, ln := range acc {
+					buf = append(append(buf, ln...), '\n')
+				}
+				jobs = append(jobs, job{sc.name, core.Store{".ergo/plans.jsonl": buf, ".ergo/lock": nil}, sc.name + " merge order " + pick + " (1 = pruning clone, 2 = linking clone)"})
+				return
+			}
+			if i < len(al.lines) {
+				rec(i+1, j, append(append([][]byte{}, acc...), al.lines[i]), pick+"1")
+			}
+			if j < len(cl.lines) {
+				rec(i, j+1, append(append([][]byte{}, acc...), cl.lines[j]), pick+"2")
+			}
+		}
+		rec(0, 0, nil, "")
+	}
+	var checked int64
+	env.Parallel(len(jobs), func(w *core.Worker, i int) {
+		j := jobs[i]
+		for round, steps := range [][]core.Req{nil, {core.R("", "--json", "compact")}, {core.R("", "--json", "new", "task").In(`{"title":"later"}`), core.R("", "--json", "compact")}} {
+			j.st.Materialize(w.Proj)
+			for _, r := range steps {
+				r.Cwd = w.Proj
+				r.RandBase = 900
+				w.Run(r)
+			}
+			obs := core.ObserveW(w, w.Proj)
+			atomic.AddInt64(&checked, 1)
+			if obs.Fail != "" {
+				report(env, "C07 kind=merged-log-unreadable scen="+j.name, j.desc+": "+obs.Fail, mkTrace(j.st, j.desc, steps, Assert{Kind: "read_fails", Step: len(steps)}))
+				return
+			}
+			msg := checkDepInvariants(obs)
+			if msg != "" && invClass(msg) != "cycle" {
+				var lit []core.Req
+				for _, r := range steps {
+					r.RandBase = 900
+					lit = append(lit, r)
+				}
+				report(env, fmt.Sprintf("C07 kind=merged-log-graph-invariant %s scen=%s round=%d", invClass(msg), j.name, round), j.desc+": "+msg,
+					mkTrace(j.st, j.desc, lit, Assert{Kind: "dep_invariant_broken", Step: len(lit)}))
+				return
+			}
+		}
+	})
+	return map[string]interface{}{"merged_logs": len(jobs), "observations_checked": checked,
+		"rule": "3 scenarios (tasks, epics, unlink/relink around a prune) x every order-preserving merge of the pruning clone's events with the linking clone's events; each merged log read directly, after compact, and after new task + compact; asserted: no edge with a pruned or unknown end, no cross-kind edge, deps/rdeps mirror each other"}
 }
